@@ -282,7 +282,10 @@ def _type_check_local_reference(expression, ir, errors):
     field = referrent
     if ir_util.field_is_virtual(field):
         _type_check_expression(
-            field.read_transform, expression.field_reference.path[0], ir, errors
+            field.read_transform,
+            expression.field_reference.path[-1].canonical_name.module_file,
+            ir,
+            errors,
         )
         ir_data_utils.builder(expression).type.CopyFrom(field.read_transform.type)
         return
